@@ -93,6 +93,7 @@ revert-F10 m_get_object_checked_n6
 revert-F11 m_skip_one_dispatch_n7
 revert-F12 u_owned_clone_loaded_keeps_raw
 revert-F13 u_root_value_padding_overrun
+revert-F14 u_skip_number_unchecked_span_n7
 LIST
 wait
 python3 tools/seeded_table.py
